@@ -279,7 +279,7 @@ def gen_case(r: random.Random) -> Dict[str, Any]:
     if r.random() < 0.5:
         p["min_point_numbers"] = [r.choice([0, 1, 5, 20]) for _ in range(nl)]
     if r.random() < 0.5:
-        p["confidence_threshold_list"] = [round(r.uniform(0.0, 0.7), 2) for _ in range(nl)]
+        p["confidence_threshold_list"] = [round(r.uniform(0.0, 0.7), 2) if r.random() > 0.15 else 0.0 for _ in range(nl)]
     if r.random() < 0.35:
         p["ignore_attributes"] = r.choice([["vehicle.parked"], ["cycle"], ["occluded", "nothing"], ["vehicle.po"], [], ["adult"]])
     frame = r.choice(["base_link", "base_link", "map"])
